@@ -110,6 +110,78 @@ class FileCtx:
         if missing:
             raise Undecided('functions under contract not found in %s: %s' % (self.rel, sorted(missing)))
 
+    def ingest(self, overrides=None, skip=(), only_kinds=('struct', 'enum', 'type', 'impl', 'fn'), item_kw=None,
+               skip_impl=(), default=None):
+        """copy EVERY top-level item of the file (types, impl blocks with all their methods, free
+        fns) in source order.  overrides: 'Type::method' / 'fn' / 'Type' -> kwargs.  Items added by a
+        later edit are therefore picked up automatically (without contract)."""
+        import os
+        rf = RustFile(os.path.join(REPO, self.rel))
+        overrides = overrides or {}
+        item_kw = item_kw or {}
+        used = set()
+        src = rf.src
+        seen_impl = set()
+        pat = re.compile(r'(?m)^(?:pub(?:\([^)]*\))?\s+)?(struct|enum|type|impl|fn|const|unsafe\s+fn)\b')
+        for m in pat.finditer(src):
+            if not rf.code[m.start()] or rf.depth[m.start()] != 0:
+                continue
+            kind = m.group(1)
+            if kind not in only_kinds:
+                continue
+            if kind in ('struct', 'enum', 'type'):
+                nm = re.match(r'\s*(\w+)', src[m.end():]).group(1)
+                if nm in skip:
+                    continue
+                kw = dict(item_kw)
+                kw.update(overrides.get(nm, {}))
+                used.add(nm)
+                self.item(kind, nm, **kw)
+            elif kind == 'fn':
+                nm = re.match(r'\s*(\w+)', src[m.end():]).group(1)
+                if nm in skip:
+                    continue
+                it = rf.find_fn(nm, None, 0)
+                if any(a.startswith('#[test') or a.startswith('#[cfg(test') for a in it['attrs']):
+                    continue
+                kw = dict(default(nm, src[it['header_start']:it['sig_end']]) if default else {})
+                kw.update(overrides.get(nm, {}))
+                used.add(nm)
+                self.fn(nm, **kw)
+            elif kind == 'impl':
+                j = src.find('{', m.end())
+                header = ' '.join(src[m.end():j].split())
+                # drop leading generics for the key
+                key = re.sub(r'^<[^>]*>\s*', '', header)
+                tyname = re.sub(r'<.*$', '', key.split(' for ')[-1]).strip()
+                if header in seen_impl or key in skip_impl or tyname in skip:
+                    continue
+                seen_impl.add(header)
+                hdr_rx = re.escape(key)
+                blocks = rf.find_all_impls(hdr_rx)
+                meths = []
+                for blk in blocks:
+                    for fnm in rf.list_fns((blk['body_open'] + 1, blk['end'] - 1), rf.depth[blk['body_open']] + 1):
+                        q = '%s::%s' % (tyname if ' for ' not in key else key, fnm)
+                        qshort = '%s::%s' % (tyname, fnm)
+                        if q in skip or qshort in skip:
+                            continue
+                        it = rf.find_fn(fnm, (blk['body_open'] + 1, blk['end'] - 1), rf.depth[blk['body_open']] + 1)
+                        kw = dict(default(qshort, src[it['header_start']:it['sig_end']]) if default else {})
+                        ov = overrides.get(q, overrides.get(qshort, {}))
+                        kw.update(ov)
+                        if q in overrides:
+                            used.add(q)
+                        if qshort in overrides:
+                            used.add(qshort)
+                        kw.setdefault('qualname', qshort if ' for ' not in key else '%s::%s' % (key, fnm))
+                        meths.append((fnm, kw))
+                if meths:
+                    self.impl(hdr_rx, meths)
+        missing = set(overrides) - used
+        if missing:
+            raise Undecided('items under contract not found in %s: %s' % (self.rel, sorted(missing)))
+
     def guard(self, fn, expected, impl=None, why=''):
         """text guard: a function that is NOT verified but whose (comment-stripped, whitespace-
         normalised) source text a lemma restates; if it changes the unit is undecided."""
